@@ -137,7 +137,7 @@ PROPS['C09'] = {
 
 PROPS['C20'] = {
     'level': 'other',
-    'units': ['C20/orf', 'C20/finder', 'C19/qgrams'],
+    'units': ['C20/orf', 'C20/finder', 'C20/alphabet', 'C19/qgrams'],
     'kani': [
         {'name': 'dna_complement', 'crate': 'alphabets', 'harness': 'dna_complement_all_bytes', 'timeout': 1200, 'obligation': 'dna::complement: involution, case preserving, identity outside the IUPAC table, lower-case twin, Watson-Crick pairs; all 256 bytes'},
         {'name': 'rna_complement', 'crate': 'alphabets', 'harness': 'rna_complement_all_bytes', 'timeout': 1200, 'obligation': 'rna::complement: the same over the RNA table'},
@@ -145,8 +145,8 @@ PROPS['C20'] = {
     'oracle': 'C20',
     'decided': ['ORF finder (Verus, unbounded; State::new, Finder::find_all, Matches::next on the real code): define a reportable frame declaratively (starts with a configured start codon, ends with an in-frame stop codon, no in-frame stop codon in between, length a multiple of three and more than min_len + 2, offset = start mod 3); find_all leaves exactly the reportable frames of the sequence to report; every next() returns the least (end, start) frame still to report and removes exactly that one; None is returned only when nothing is left - hence every reportable frame is reported exactly once, in order, and nothing else is (pending-start lists characterised per frame: sound, ascending, complete; queue sound/complete for the frames ending at the current position)',
                 'RankTransform::new / get (unit shared with C19): the rank transform is an order-preserving bijection onto 0..|A| (rank r goes to the r-th smallest symbol)', 'dna::complement and rna::complement (through the real lazy_static tables): involution on all 256 bytes, case preserved, bytes outside the IUPAC table unchanged, lower-case entries mirror upper-case ones (complete over the byte domain)'],
-    'decided_extra': ['Finder::new (unit C20/finder, rules R44/R45 for the nested iter().map(..).collect() chains): the finder stores exactly the given start and stop codons, three symbols each, and the minimum length - the well-formedness find_all / next require'],
-    'undecided': ['the identification of the Finder of unit C20/finder (whose constructor is proved to establish wf()) with the Finder of unit C20/orf (same struct, same wf definition; two units because the proof of next is sensitive to its context)', 'Alphabet::{new, is_word, max_symbol, len} (closure adapter chains over bit_set)', 'gc_content (f32)', 'revcomp iterator chain (rev/map/collect: std adapter semantics)'],
+    'decided_extra': ['Alphabet::{new, insert, is_word, len, is_empty} (unit C20/alphabet, rules R46/R47, BitSet stubbed as a membership predicate): new collects exactly the symbols of its argument; is_word accepts a text exactly when all its symbols are members', 'Finder::new (unit C20/finder, rules R44/R45 for the nested iter().map(..).collect() chains): the finder stores exactly the given start and stop codons, three symbols each, and the minimum length - the well-formedness find_all / next require'],
+    'undecided': ['the identification of the Finder of unit C20/finder (whose constructor is proved to establish wf()) with the Finder of unit C20/orf (same struct, same wf definition; two units because the proof of next is sensitive to its context)', 'Alphabet::{max_symbol, intersection, difference, union} (iterator adapters of bit_set)', 'gc_content (f32)', 'revcomp iterator chain (rev/map/collect: std adapter semantics)'],
     'trusted': ['Kani/CBMC', 'std specs used by the ORF unit: VecDeque::{is_empty} + vstd VecDeque model, [T]::contains over an uninterpreted element equality with ONE ADMITTED AXIOM equating it with sequence equality for VecDeque<u8>, Enumerate<slice::Iter> model and the enumerate_slice stub (generic sequence iterator instantiated at &[u8])'],
     'level_text': 'Verus proves the ORF finder reports exactly the frames of the declarative definition, each once and in order, for all inputs; complete Kani proofs over the whole byte domain for the two complement tables; rank transform proved (shared unit); alphabet membership and GC content are not decided by contracts.',
     'level_note': 'Level other (partial). Trusted: Kani 0.68/CBMC 6.11.',
@@ -165,7 +165,7 @@ PROPS['C19'] = {
     'decided_extra': ['sparse::lcskpp has the MAXIMUM possible LCSk++ score: the reported score equals the score of the returned chain (k for the first match, +1 for a diagonal continuation, +k for a match starting at or after the end of its predecessor) and no valid chain of the given matches scores more - proved on the real code: the Fenwick tree (instantiated at (u32,u32) with the lexicographic maximum) now has the algebraic contract of unit C18/fenwick (get == prefix fold, set updates every later prefix), the sweep keeps "no entry can be improved by an admissible link" (sweep_ok) in event order, the tree shows every ended match from its end column on and only ended matches with their final score (tree_ok), the running best dominates all entries (best_ok); optimality of all chains then follows by induction over chains (lemma_chain_bound), exactness by following the pointers (lemma_trace_score)'],
     'undecided': [
                   'exact_matches maximality, matches() hit counts (HashMap entry API has no model)', 'find_kmer_matches* (HashMap over k-mer slices), expand_kmer_matches; for sdpkpp only chain validity is proved (the property claims no optimality for the gap-penalised variant)'],
-    'trusted': ['in C19/qindex the q-gram iterator is a stub whose contract (codes are a function of (ranks, q, text), every code <= mask) is the one proved in C19/qgrams', 'vec_map::VecMap, bit_set::BitSet (ascending iteration) stubs; ceil_log2 float stub; usize::checked_shl spec', 'HashMap entry API stub (no functional spec)', 'slice::Iter::clone keeps the remaining items',
+    'trusted': ['in C19/qindex the q-gram iterator is a stub whose contract (codes are a function of (ranks, q, text), every code <= mask) is the one proved in C19/qgrams', 'vec_map::VecMap, bit_set::BitSet (ascending iteration; in C20/alphabet: new/insert/contains/len/is_empty as a set) stubs; ceil_log2 float stub; usize::checked_shl spec', 'HashMap entry API stub (no functional spec)', 'slice::Iter::clone keeps the remaining items',
                 'one listed assume: a diagonal hit counter stays below 2^64', 'lcskpp/sdpkpp units: std specs for slice sort_unstable (permutation, ascending by the lexicographic tuple order of vstd), reverse, binary_search (Ok(i) => equal element; on a strictly sorted slice Err => no equal element), cmp::max (returns one of its arguments); derived Default/Ord of PrevPtr (all-zero default; only selection is used of the order)'],
     'level_text': 'Verus proves the index tables of the real with_max_count (counting sort over the code sequence, any alphabet size) panic-freedom of matches(), the q-gram coding (injective), and chain validity / termination / overflow-freedom of lcskpp and sdpkpp; maximal exact matches and chain optimality are not decided.',
     'level_note': 'Level other (partial). Trusted: q-gram iterator stub contract, HashMap stub, Verus/Z3.',
